@@ -423,6 +423,69 @@ func runCalls(mu *sync.Mutex, emit func(schedEvent)) bool {
 		}(g)
 	}
 	wg.Wait()
+	if !ok {
+		return false
+	}
+	// concurrent calls that share one delay table (as the fine tuner's workers do): the table is an
+	// argument, a simulation may read it but not change it, and the draws of concurrent simulations
+	// (and of the two processors of one simulation) must not share unsynchronised state
+	mk2 := func() *bondmachine.Bondmachine {
+		bm := newBM(8)
+		for i := 0; i < 2; i++ {
+			p, err := mkMachine(8, 2, 0, 1, 0, []string{"inc", "r2owa", "j"}, "inc r0\ninc r0\ninc r0\nr2owa r0 o0\nj 0\n") // (the call ends when the last output is valid)
+			if err != nil {
+				return nil
+			}
+			addProc(bm, p)
+			bm.Add_output()
+			bm.Add_bond([]string{"o" + strconv.Itoa(i), "p" + strconv.Itoa(i) + "o0"})
+		}
+		return bm
+	}
+	table := func() *simbox.SimDelays {
+		sd := simbox.NewSimDelays()
+		sd.OpcodeDelays["inc"] = simbox.DelayDistribution{2: 2.0} // one outcome, weight not normalised
+		sd.OpcodeDelays["j"] = simbox.DelayDistribution{1: 0.5}
+		return sd
+	}
+	bm0 := mk2()
+	if bm0 == nil {
+		return false
+	}
+	refRes, err := bm0.SinglePipelineSimulate("unsigned", []string{}, table())
+	if err != nil {
+		return false
+	}
+	ref := strings.Join(refRes, ",")
+	shared := table()
+	before := fmt.Sprint(shared.OpcodeDelays)
+	for g := 0; g < 6; g++ {
+		wg.Add(1)
+		go func() {
+			defer wg.Done()
+			for k := 0; k < 2; k++ {
+				bm := mk2()
+				if bm == nil {
+					ok = false
+					return
+				}
+				res, err := bm.SinglePipelineSimulate("unsigned", []string{}, shared)
+				d := strings.Join(res, ",")
+				if err != nil {
+					d = "error: " + err.Error()
+				}
+				mu.Lock()
+				emit(schedEvent{Ev: "call", D: d, Ref: ref, Note: "SinglePipelineSimulate:shared-delay-table"})
+				mu.Unlock()
+			}
+		}()
+	}
+	wg.Wait()
+	if after := fmt.Sprint(shared.OpcodeDelays); after != before {
+		mu.Lock()
+		emit(schedEvent{Ev: "call", D: "delay table after the calls: " + after, Ref: "delay table before the calls: " + before, Note: "SinglePipelineSimulate:argument-delay-table-modified"})
+		mu.Unlock()
+	}
 	return ok
 }
 
